@@ -1,6 +1,10 @@
 /- REGENERATED on every run by harness/extract.py from /repo (do not edit). -/
 namespace Tealer.Generated
 
+/-- for every instruction / field class the analyses test with `isinstance`: the classes of its module that ARE instances of it
+    (itself and its subclasses).  The views of PyView.lean read `isinstance(x, C)` as `type(x) is C` (one exception:
+    IntcInstruction), which is right exactly when this table is the one of the specification. -/
+def classHierarchy : List (String × List String) := [("Int", ["Int"]), ("PushInt", ["PushInt"]), ("IntcInstruction", ["Intc", "Intc0", "Intc1", "Intc2", "Intc3", "IntcInstruction"]), ("Addr", ["Addr"]), ("Txn", ["Txn"]), ("Gtxn", ["Gtxn"]), ("Gtxns", ["Gtxns"]), ("Global", ["Global"]), ("Eq", ["Eq"]), ("Neq", ["Neq"]), ("Less", ["Less"]), ("LessE", ["LessE"]), ("Greater", ["Greater"]), ("GreaterE", ["GreaterE"]), ("And", ["And"]), ("Or", ["Or"]), ("Not", ["Not"]), ("Add", ["Add"]), ("Sub", ["Sub"]), ("Assert", ["Assert"]), ("Return", ["Return"]), ("Err", ["Err"]), ("BZ", ["BZ"]), ("BNZ", ["BNZ"]), ("TealerCustomErrInstruction", ["TealerCustomErrInstruction"]), ("B", ["B"]), ("Callsub", ["Callsub"]), ("Retsub", ["Retsub"]), ("Switch", ["Switch"]), ("Match", ["Match"]), ("Label", ["Label"]), ("Pragma", ["Pragma"]), ("Intcblock", ["Intcblock"]), ("RekeyTo", ["RekeyTo"]), ("CloseRemainderTo", ["CloseRemainderTo"]), ("AssetCloseTo", ["AssetCloseTo"]), ("Sender", ["Sender"]), ("Fee", ["Fee"]), ("TypeEnum", ["TypeEnum"]), ("OnCompletion", ["OnCompletion"]), ("ApplicationID", ["ApplicationID"]), ("GroupIndex", ["GroupIndex"]), ("GroupSize", ["GroupSize"]), ("ZeroAddress", ["ZeroAddress"]), ("CreatorAddress", ["CreatorAddress"])]
 def MAX_GROUP_SIZE : Nat := 16
 def MAX_UINT64 : Nat := 18446744073709551615
 def MAX_TRANSACTION_COST : Nat := 272000
